@@ -59,6 +59,8 @@ def parse_back(ctx, R, rule='C07.P'):
                 IN, L = built_input(ccode, fcode, tcode, var, a, pay)
                 assume = [T.cmp('Le', L, I(tables.U16_MAX)), ('isvar', a, var)]
                 ev, outs = ctx.entry(p, args=[IN], assume=assume)
+                if ev is not None:
+                    no_panic_gaps(R, rule, ev, p, label='parse-back/%s/%s/%s' % (cmd, var, trn))
                 if not outs:
                     R.require(False, rule, 'parse-back/%s/%s/%s' % (cmd, var, trn), 'no summary')
                     continue
@@ -139,6 +141,8 @@ def run(ctx, R):
     if R.require(im is not None, 'C07.W', 'TLV encoder', 'impl missing'):
         pth = [it['path'] for it in im['items'] if it['name'] == 'write_to'][0]
         C20mod.check_encoder(ctx, R, pth, 'TypeLengthValue', lambda s, v: enc.tlv_enc(('field', s, 'kind'), ('field', s, 'value')), limit_on=lambda s: ('field', s, 'value'))
+    # every builder method transformer (C10.I instances): the fixed part is written exactly once, before the first payload, whatever the first call is
+    C10mod.transformers(ctx, R)
     # write_tlv / with_addresses transformers (C10.I instances)
     p = ctx.method(B, 'write_tlv')
     if p:
